@@ -1,7 +1,7 @@
 #!/bin/bash
 # usage: tools/seed2keep.sh <pid> <A|B> <id> "<verify line>" "<caught-by text>"
 pid=$1; X=$2; id=$3; ver=$4; caught=$5
-w=/tmp/seed2/$pid
+w=${SEEDROOT:-/tmp/seed2}/$pid
 mkdir -p /verif/seeded/$id
 cp $w/SEED_${X}_patch.diff /verif/seeded/$id/patch.diff
 cp $w/SEED_${X}_demo_test.go.txt /verif/seeded/$id/demo_test.go.txt
